@@ -348,7 +348,23 @@ func vH_C07_fault() {
 	case fCopyTo:
 		vTrace("fault:CopyTo")
 		var cp *Store
-		cp, operr = s.CopyTo(&vFile{}, 1)
+		dstf := &vFile{}
+		if vChoose("fault-on-destination", 0, 1) == 1 {
+			// the failing file is the destination of the copy
+			vTrace("fault-on-destination")
+			dstf.failAt, dstf.torn, dstf.tornLen = f.failAt, f.torn, f.tornLen
+			f.failAt, f.torn = 0, false
+			cp, operr = s.CopyTo(dstf, 1)
+			if dstf.failed == 0 {
+				return
+			}
+			vCover("fault-injected")
+			vAssert("error-reported-by-copyto-destination-fault", operr != nil)
+			vCheckColl("after-fault", c, before)
+			vCover("done")
+			return
+		}
+		cp, operr = s.CopyTo(dstf, 1)
 		if operr == nil && f.failed > 0 {
 			// reported success although a source-file call failed: at the very
 			// least the copy must be right
@@ -391,6 +407,14 @@ func vH_C07_fault() {
 		// states already in the file must be undamaged
 		s3, err := NewStore(f)
 		vAssert("revert-fault-reopen", vAnd(err == nil, s3 != nil))
+		if s3 != nil {
+			c3 := s3.GetCollection("a")
+			vAssert("revert-fault-coll", c3 != nil)
+			if c3 != nil {
+				// the revert failed: the newest flush must still be there
+				vCheckColl("durable-after-failed-revert", c3, durable)
+			}
+		}
 		vCover("done")
 		return
 	}
